@@ -120,6 +120,8 @@ fn run(ctx: &mut Ctx) {
         let mut t0 = 1_600_000_000 + rng.below(1000) as u32;
         let mut full_budget = if i % 3 == 0 { 2 } else { 0 };
         let mut total_main = 0usize;
+        let mut last_trg: Option<Vec<u8>> = None;
+        let mut repeated_trg = 0u64;
         for k in 0..nfiles {
             let ne = if rng.chance(0.1) { 0 } else { rng.usize(if thorough { 61 } else { 25 }) };
             let mut events = Vec::new();
@@ -177,7 +179,19 @@ fn run(ctx: &mut Ctx) {
                     let mut t = Trg::simple(ts, rng.next() as u32 >> 6);
                     t.input = t.drift.saturating_add(rng.below(1000) as u32);
                     t.pulser = rng.next() as u32;
-                    banks.push(("ATAT".into(), t.encode()));
+                    let mut bytes = t.encode();
+                    // now and then the very same 80 bytes as the previous main event (also across a file boundary or
+                    // with undecodable events in between): the row must still be the packet's own
+                    match &last_trg {
+                        Some(prev) if rng.chance(0.12) => {
+                            bytes = prev.clone();
+                            ts = u32::from_le_bytes(bytes[8..12].try_into().unwrap());
+                            repeated_trg += 1;
+                        }
+                        _ => {}
+                    }
+                    last_trg = Some(bytes.clone());
+                    banks.push(("ATAT".into(), bytes));
                     if rng.chance(0.3) {
                         banks.push(("TRBA".into(), rng.bytes(9)));
                     }
@@ -203,7 +217,8 @@ fn run(ctx: &mut Ctx) {
                 rng.shuffle(&mut banks);
                 events.push(Ev { id: 1, serial, banks });
             }
-            let t1 = t0 + rng.below(50) as u32;
+            // a file lasts up to 50 s, now and then several minutes (the seconds counter then crosses multiples of 256)
+            let t1 = t0 + if rng.chance(0.3) { rng.below(600) } else { rng.below(50) } as u32;
             let ext = if rng.chance(0.4) { "mid.lz4" } else { "mid" };
             // file names deliberately do not sort like the timestamps
             files.push(FileSpec { name: format!("run{:02}_{}.{}", (nfiles - k) * 7 % 10, k, ext), t0, t1, run: run_number, events });
@@ -255,9 +270,24 @@ fn run(ctx: &mut Ctx) {
         // ---- write the files
         let mut paths: Vec<PathBuf> = Vec::new();
         let mut d = Digest::new();
+        let run_big_endian = rng.below(4) == 0;
         for f in &files {
             let evs: Vec<Event> = f.events.iter().map(|e| Event { id: e.id, serial: e.serial, timestamp: f.t0, banks: e.banks.clone() }).collect();
-            let bytes = midas::file_bytes(f.run, f.t0, f.t1, &evs);
+            // each file in one of the formats the MIDAS library reads: byte order and bank flavour are per file
+            let small = evs.iter().all(|e| e.banks.iter().all(|b| b.1.len() < 65536));
+            let be = run_big_endian || rng.chance(0.1);
+            let flavour = match rng.below(6) {
+                0 if small => 1,
+                1 => 49,
+                _ => 17,
+            };
+            if be {
+                ctx.count("big-endian MIDAS files written");
+            }
+            if flavour != 17 {
+                ctx.count("MIDAS files written with 16-bit / 32a bank headers");
+            }
+            let bytes = if !be && flavour == 17 { midas::file_bytes(f.run, f.t0, f.t1, &evs) } else { midas::file_bytes_fmt(f.run, f.t0, f.t1, &evs, be, flavour) };
             d.bytes(&bytes);
             let p = dir.join(&f.name);
             if f.name.ends_with(".lz4") && rng.chance(0.4) {
@@ -276,6 +306,7 @@ fn run(ctx: &mut Ctx) {
             ctx.sample(json!({"kind": "run", "run_number": run_number, "files": files.iter().map(|f| json!({"name": f.name, "t0": f.t0, "t1": f.t1, "events": f.events.len()})).collect::<Vec<_>>(), "main_events": vexp.len(), "timestamp_wraps": wraps, "undecodable_for_vertices": undecodable}));
         }
         ctx.count_n("main events (expected rows)", vexp.len() as u64);
+        ctx.count_n("main events repeating the previous TRG packet byte for byte", repeated_trg);
         ctx.count_n("32-bit timestamp wraps crossed", wraps as u64);
         ctx.count_n("undecodable main events", undecodable as u64);
         ctx.count_n("rows with a reconstructed vertex expected", vexp.iter().filter(|r| matches!(r.v, Some(Some(_)))).count() as u64);
